@@ -72,6 +72,9 @@ type fnTrans struct {
 	edge  map[[2]int]string // edge condition (excluding source reach)
 	names map[string][]nameRef
 	local map[ssa.Value]bool // objects allocated in this function (still private)
+	tokLoads []*tokLoad
+	tokByInstr map[*ssa.UnOp]*tokLoad
+	tokMade  []string
 	loops map[*ssa.BasicBlock]*loopInfo
 	order []*ssa.BasicBlock
 	contract *FuncContract
@@ -1111,6 +1114,7 @@ func (t *fnTrans) storeInstr(in *ssa.Store) {
 	t.guardAccess(l, true, in.Pos())
 	t.ownWriteShared(in, l)
 	t.ownStoreHook(in, l)
+	t.tokStoreHook(in, l)
 	// array-typed destinations
 	if at, ok := l.typ.Underlying().(*types.Array); ok && l.kind == locCell {
 		hv := t.elemHV(at.Elem())
@@ -1148,6 +1152,7 @@ func (t *fnTrans) unop(in *ssa.UnOp) {
 			}
 		}
 		t.ownLoadHook(in, l)
+		t.tokLoadHook(in, l)
 	case token.NOT:
 		t.setVal(in, not(t.val(in.X)))
 	case token.SUB:
@@ -1542,6 +1547,7 @@ func (t *fnTrans) makeChan(in *ssa.MakeChan) {
 	t.assume("(= (chan_cap " + r + ") " + sz + ")")
 	cl := t.h.get(t.cur, "chclosed")
 	t.h.set(t.cur, "chclosed", store(cl, r, "false"))
+	t.tokMake(r)
 }
 
 func (t *fnTrans) rangeInstr(in *ssa.Range) {
